@@ -22,20 +22,22 @@ CONSTANTS Pers,       \* subset of {"gxz", "unxz", "xzcat", "lzma", "unlzma", "l
           Infos,      \* subset of {"none", "h", "L", "V"}
           Fmts,       \* subset of {"none", "xz", "lzma", "alone", "auto", "bogus"}
           FlagPool,   \* subset of {"k", "c", "f"}
+          Usages,     \* subset of {"none", "short", "long", "noarg", "argnotallowed"}: a malformed command line
           Kinds,      \* subset of {"reg", "dir", "missing", "symlink", "dangling", "setgid", "dash"}
           Contents,   \* subset of {"text", "xzdata", "lzmadata"}
           MaxFiles
 
-VARIABLES pers, op, info, fmt, flags, files, stdin, phase
-mvars == <<pers, op, info, fmt, flags, files, stdin, phase>>
+VARIABLES pers, op, info, fmt, flags, files, stdin, phase, usage
+mvars == <<pers, op, info, fmt, flags, files, stdin, phase, usage>>
 
 Init == /\ pers = "gxz" /\ op = "none" /\ info = "none" /\ fmt = "none" /\ flags = {}
-        /\ files = <<>> /\ stdin = "text" /\ phase = "pers"
+        /\ files = <<>> /\ stdin = "text" /\ phase = "pers" /\ usage = "none"
 
 ChoosePers == /\ phase = "pers" /\ pers' \in Pers /\ op' \in Ops /\ info' \in Infos /\ phase' = "opts"
+              /\ usage' \in Usages
               /\ UNCHANGED <<fmt, flags, files, stdin>>
 ChooseOpts == /\ phase = "opts" /\ fmt' \in Fmts /\ flags' \in SUBSET FlagPool /\ stdin' \in Contents
-              /\ phase' = "files" /\ UNCHANGED <<pers, op, info, files>>
+              /\ phase' = "files" /\ UNCHANGED <<pers, op, info, files, usage>>
 
 (*---------------------------- effective options --------------------------*)
 PersDecompress(p) == p \in {"unxz", "xzcat", "unlzma", "lzcat"}
@@ -56,8 +58,8 @@ AddFile == /\ phase = "files" /\ Len(files) < MaxFiles
            /\ \E kd \in Kinds, ct \in Contents :
                 /\ (kd = "dash" => ~HasDash /\ ("c" \in flags \/ PersStdout(pers)))
                 /\ files' = Append(files, [kind |-> kd, content |-> ct])
-           /\ UNCHANGED <<pers, op, info, fmt, flags, stdin, phase>>
-Finish == phase = "files" /\ phase' = "done" /\ UNCHANGED <<pers, op, info, fmt, flags, files, stdin>>
+           /\ UNCHANGED <<pers, op, info, fmt, flags, stdin, phase, usage>>
+Finish == phase = "files" /\ phase' = "done" /\ UNCHANGED <<pers, op, info, fmt, flags, files, stdin, usage>>
 Next == ChoosePers \/ ChooseOpts \/ AddFile \/ Finish
 Spec == Init /\ [][Next]_mvars
 
@@ -94,7 +96,11 @@ Outcome(f) ==
        ELSE [ok |-> TRUE, out |-> "file", target |-> IF D THEN "strip" ELSE "append", fmt |-> t.fmt, removeInput |-> ~Keep]
 
 (* The whole run. *)
-Mode == IF info # "none" THEN "info"
+(* A malformed command line (unknown short or long option, option argument missing, argument   *)
+(* given to a switch) is rejected while parsing, before anything else is looked at - also      *)
+(* before -h/-L/-V.                                                                            *)
+Mode == IF usage # "none" THEN "usage"
+        ELSE IF info # "none" THEN "info"
         ELSE IF BadFmt(pers, fmt) THEN "fatal"
         ELSE IF NoOperands THEN "filter"
         ELSE "files"
@@ -102,7 +108,7 @@ Mode == IF info # "none" THEN "info"
 Outcomes == [i \in 1..Len(files) |-> IF Mode = "files" THEN Outcome(files[i]) ELSE Fail]
 FilterOk == Transform(stdin).ok
 Exit == CASE Mode = "info" -> 0
-          [] Mode = "fatal" -> 1
+          [] Mode \in {"fatal", "usage"} -> 1
           [] Mode = "filter" -> IF FilterOk THEN 0 ELSE 1
           [] OTHER -> IF \E i \in 1..Len(files) : ~Outcomes[i].ok THEN 1 ELSE 0
 (* sources whose transformed data appear on standard output, in order: 0 = standard input (filter mode) *)
@@ -118,7 +124,7 @@ InfoOnStdout == Mode = "info" /\ info \in {"h", "L"}
 RemoveOnlyWithFile == phase = "done" => \A i \in 1..Len(files) :
                         Outcomes[i].removeInput => Outcomes[i].ok /\ Outcomes[i].out = "file" /\ Mode = "files"
 (* Information options and fatal option errors touch no operand. *)
-InfoTouchesNothing == phase = "done" /\ Mode \in {"info", "fatal"} => StdoutSources = <<>>
+InfoTouchesNothing == phase = "done" /\ Mode \in {"info", "fatal", "usage"} => StdoutSources = <<>>
 (* -z wins over a decompressing personality; cat personalities never create files. *)
 ZForces == phase = "done" /\ op = "z" => ~D
 CatNeverWritesFiles == phase = "done" /\ PersStdout(pers) => \A i \in 1..Len(files) : Outcomes[i].out # "file"
@@ -126,7 +132,7 @@ CatNeverWritesFiles == phase = "done" /\ PersStdout(pers) => \A i \in 1..Len(fil
 Independent == phase = "done" /\ Mode = "files" => \A i \in 1..Len(files) : Outcomes[i] = Outcome(files[i])
 
 Emit == phase = "done" =>
-          PrintT(ToJson([kind |-> "main", pers |-> pers, op |-> op, info |-> info, fmt |-> fmt, flags |-> flags,
+          PrintT(ToJson([kind |-> "main", pers |-> pers, op |-> op, info |-> info, fmt |-> fmt, flags |-> flags, usage |-> usage,
                          files |-> files, stdin |-> stdin, mode |-> Mode, dec |-> D, efmt |-> F,
                          outcomes |-> Outcomes, exit |-> Exit, stdoutSources |-> StdoutSources,
                          stdoutFmt |-> StdoutFmt, infoOnStdout |-> InfoOnStdout]))
